@@ -226,17 +226,36 @@ Definition quarter_from_string (s : bytes) : outcome cdate :=
   | _ => Err EInvalidPeriod
   end.
 
-(* the body of NewWeekFromString once the regexp ^\d{4}-W\d{1,2}$ has matched *)
-Definition week_from_numbers (year week : Z) : outcome cdate :=
-  if week <? 1 then Err EInvalidPeriod else
+(* recover() in the closure of NewWeekFromString (fix 9e99f6b): a panic of the date arithmetic becomes the
+   error INVALID_WEEK_PERIOD *)
+Definition recover_week (x : outcome cdate) : outcome cdate :=
+  match x with
+  | Crash _ => Err EInvalidPeriod
+  | o => o
+  end.
+
+(* the closure: the Monday on or before July 1st, moved to the requested week number; the Sunday of that
+   week must be representable as well (ref.PlusDays(6), result discarded) *)
+Definition week_reference (year week : Z) : outcome cdate :=
   match new_date year 7 1 with
   | None => Err EInvalidPeriod
   | Some ref0 =>
     let* ref := week_since 7 ref0 in
     let w := snd (iso_week ref) in
     let* ref := plus_days ref ((week - w) * 7) in
+    let* _ := plus_days ref 6 in
+    Ok ref
+  end.
+
+(* the body of NewWeekFromString once the regexp ^\d{4}-W\d{1,2}$ has matched *)
+Definition week_from_numbers (year week : Z) : outcome cdate :=
+  if week <? 1 then Err EInvalidPeriod else
+  match recover_week (week_reference year week) with
+  | Ok ref =>
     if negb (snd (iso_week ref) =? week) then Err EInvalidPeriod   (* "prevent implicit roll over" *)
     else Ok ref
+  | Err e => Err e
+  | Crash c => Crash c
   end.
 
 Definition week_from_string (s : bytes) : outcome cdate :=
@@ -255,7 +274,7 @@ Definition week_from_string (s : bytes) : outcome cdate :=
   end.
 
 (* NewPeriodFromPatternString: the first constructor that returns no error decides; a panic inside a
-   constructor or inside Period() propagates *)
+   constructor or inside Period() would propagate (since 9e99f6b none occurs: Proofs/PeriodPattern.v) *)
 Definition try_pattern (k : kind) (parse : bytes -> outcome cdate) (s : bytes)
     (next : outcome period) : outcome period :=
   match parse s with
